@@ -165,16 +165,24 @@ def run(res):
         # ---- log-likelihood (SciPy reference)
         ll = float(st['loglikelihood'])
         if cls != 'ExpectileGAM':
-            ref = loglik_ref(gam, cls, y, mu, w)
+            # the code carries the weights as a float32 array (np.array(weights).astype('f')); scale / weights and weights / scale are
+            # then evaluated in float32.  The reference uses the same dtype so that the comparison is about the formula, not about that rounding
+            ref = loglik_ref(gam, cls, y, mu, w if scn['w'] is None else np.asarray(scn['w'], dtype=np.float32))
             res.case(('loglik', i))
-            if math.isfinite(ref) and not math.isclose(ll, ref, rel_tol=1e-9 if scn['w'] is None else 1e-6, abs_tol=1e-9 if scn['w'] is None else 1e-6):
+            if math.isfinite(ref) and not math.isclose(ll, ref, rel_tol=1e-9, abs_tol=1e-9):
                 res.violations.append(dict(what='log-likelihood differs from the sum of the documented log densities', finding=None, input=d,
                                            observed=ll, expected=ref))
         # ---- information criteria through the generated formulas
         if math.isfinite(ll):
             goals.append(goal('Gen_AIC %s %s %s' % (common.coq_bool(known), rlit(ll), rlit(edof)), float(st['AIC']))); gmeta.append(dict(d, stat='AIC', value=float(st['AIC'])))
-            if n - edof - 2 != 0 and math.isfinite(st['AICc']):
-                goals.append(goal('Gen_AICc %s %s %s' % (rlit(float(st['AIC'])), rlit(edof), rlit(float(n))), float(st['AICc']), abs(st['AIC'])))
+            den = n - edof - 2
+            if abs(den) <= 1e-6 * n:
+                res.count('AICc skipped: n - edof - 2 ~ 0 (ill-conditioned)')
+            elif math.isfinite(st['AICc']):
+                # cancellation in n - edof - 2: relative rounding error eps (n + edof + 2) / |n - edof - 2| of the correction term
+                corr = abs(2 * (edof + 1) * (edof + 2) / den)
+                goals.append(goal('Gen_AICc %s %s %s' % (rlit(float(st['AIC'])), rlit(edof), rlit(float(n))), float(st['AICc']),
+                                  abs(st['AIC']) + corr * 1e-6 * (n + edof + 2) / abs(den)))
                 gmeta.append(dict(d, stat='AICc', value=float(st['AICc'])))
         with np.errstate(all='ignore'):
             dev_unscaled = float(gam.distribution.deviance(y=y, mu=mu, weights=w, scaled=False).sum())
@@ -190,8 +198,11 @@ def run(res):
         else:
             if st['UBRE'] is not None:
                 res.violations.append(dict(what='UBRE reported for an unknown-scale model', finding=None, input=d, observed=st['UBRE'], expected=None))
-            if abs(n - 1.4 * edof) > 1e-6:
-                goals.append(goal('Gen_GCV Gen_gamma_default %s %s %s' % (rlit(float(n)), rlit(dev_unscaled), rlit(edof)), float(st['GCV'])))
+            if abs(n - 1.4 * edof) <= 1e-6 * n:
+                res.count('GCV skipped: n - gamma edof ~ 0 (ill-conditioned)')
+            else:
+                goals.append(goal('Gen_GCV Gen_gamma_default %s %s %s' % (rlit(float(n)), rlit(dev_unscaled), rlit(edof)), float(st['GCV']),
+                                  abs(float(st['GCV'])) * 4e-6 * (n + 1.4 * edof) / abs(n - 1.4 * edof)))
                 gmeta.append(dict(d, stat='GCV', value=float(st['GCV'])))
         # ---- pseudo R^2
         r2 = st['pseudo_r2']
